@@ -48,7 +48,10 @@ PARTIAL = [
     'for the code as written the same statements are refuted (coq/Findings/F_C14.v) and listed as findings',
     'undo_restores_impl_partial: undo() as written restores every parameter that is not a pickup/solve target',
     'solves are covered only through the two hypotheses on update(); chained pickups violate them (C01/D20)',
-    'binary64: set-then-get returns the value up to rounding of scale/inverse_scale (checked to 1e-12 by correspondence)',
+    'binary64: set-then-get returns the value up to rounding of scale/inverse_scale (checked to 1e-12 by correspondence); '
+    'observed: when a run returns a solution exactly on a bound, a second differential_evolution run started from it raises '
+    '"x0 lay outside the specified bounds" (SciPy rescales x0 to [0,1] with rounding); counted as restart-from-bound-raise, '
+    'not a violation of the real-number statement',
 ]
 
 KIND = {'radius': ('KRadius', 0), 'conic': ('KConic', 1), 'thickness': ('KThickness', 2), 'index': ('KIndex', 3),
@@ -804,6 +807,19 @@ def opt_oracle(c, o, bad, ci, hist):
                     if not all(near(a, b) for a, b in zip(araw, [hx(v) for v in before['raw']])):
                         W('raise-moved-lens', si)
                     hist['bounds-required-raise'] = hist.get('bounds-required-raise', 0) + 1
+                    continue
+                # a start vector lying ON a bound (a previous run returned the bound): scipy.differential_evolution maps x0 to
+                # [0,1] with rounding and refuses it ("x0 lay outside the specified bounds"), least_squares wants it strictly
+                # feasible up to 1 ulp.  That is SciPy's precondition on x0 at binary64 level, outside the real-number
+                # statement; counted, not a violation (the lens must be untouched).
+                ob = [(hx(b_[0]), hx(b_[1])) for b_ in o['bounds']]
+                on_b = [(lo is not None and near(xv, lo, 1e-13)) or (hi is not None and near(xv, hi, 1e-13)) for xv, (lo, hi) in zip(bvals, ob)]
+                inside = [(lo is None or xv >= lo or near(xv, lo, 1e-13)) and (hi is None or xv <= hi or near(xv, hi, 1e-13))
+                          for xv, (lo, hi) in zip(bvals, ob)]
+                if st['error'][0] == 'ValueError' and si > 0 and any(on_b) and all(inside) and 'x0' in st['error'][1]:
+                    hist['restart-from-bound-raise(SciPy rejects x0 on a bound)'] = hist.get('restart-from-bound-raise(SciPy rejects x0 on a bound)', 0) + 1
+                    if not all(near(a, b) for a, b in zip(araw, [hx(v) for v in before['raw']])):
+                        W('raise-moved-lens', si)
                     continue
                 W('exception', si, error=st['error'], explained=('unscaled-bounds-scaled' if d07 else None))
                 continue
